@@ -117,8 +117,15 @@ const (
 	fail500
 	failGarbage
 	failTruncated
+	failResetEarly  // connection reset before any response byte
+	failResetMid    // headers and half of the body, then reset
+	failGarbledByte // full-length body with one byte overwritten by 0x01
+	failGarbledTail // well-formed JSON whose last session entry carries a wrong-typed field
 	nFailModes
 )
+
+var failOutcome = map[int]int{fail500: fo5xx, failTruncated: foTruncated, failResetEarly: foResetEarly, failResetMid: foResetMid,
+	failGarbledByte: foGarbled, failGarbledTail: foGarbledTail}
 
 type modelProducer struct {
 	srv      *snapServer
@@ -151,18 +158,18 @@ func (p *modelProducer) serve(w http.ResponseWriter, r *http.Request) {
 	msg := &ha.SyncMessage{Type: ha.SyncTypeFull, Sessions: snap, Timestamp: fixedStamp, SequenceNum: seq, NodeID: "active"}
 	body, _ := json.Marshal(msg)
 	body = append(body, '\n')
+	genuine := http.HandlerFunc(func(w http.ResponseWriter, _ *http.Request) {
+		w.Header().Set("Content-Type", "application/json")
+		w.Write(body)
+	})
 	switch mode {
-	case fail500:
-		http.Error(w, "Internal error", http.StatusInternalServerError)
+	case failNone:
+		genuine(w, r)
 	case failGarbage:
 		w.Header().Set("Content-Type", "application/json")
 		w.Write([]byte("<html>not json</html>\n"))
-	case failTruncated:
-		w.Header().Set("Content-Type", "application/json")
-		w.Write(body[:len(body)*2/3])
 	default:
-		w.Header().Set("Content-Type", "application/json")
-		w.Write(body)
+		serveWithOutcome(w, r, genuine, failOutcome[mode], int(seq)*131+len(body)/3)
 	}
 }
 
@@ -505,12 +512,13 @@ func (w *world) enabled(weighted bool) (active, standby []op) {
 	// standby side
 	switch w.link {
 	case linkDetached:
-		add(&standby, op{kind: opFullSync}, 9)
+		add(&standby, op{kind: opFullSync}, 14)
 		if !w.realAct {
 			add(&standby, op{kind: opSyncFail, aux: fail500}, 1)
 			if weighted {
-				add(&standby, op{kind: opSyncFail, aux: failGarbage}, 1)
-				add(&standby, op{kind: opSyncFail, aux: failTruncated}, 1)
+				for m := failGarbage; m < nFailModes; m++ {
+					add(&standby, op{kind: opSyncFail, aux: m}, 1)
+				}
 			}
 		}
 	case linkSynced:
@@ -631,6 +639,7 @@ func (w *world) apply(o op) {
 
 	case opSyncFail:
 		w.cls["fullsync-fail"] = true
+		w.cls[fmt.Sprintf("fullsync-fail:mode%d", o.aux)] = true
 		w.prod.serveNext(w.order(w.tbl.list()), o.aux)
 		err := w.sb.VerifPerformFullSync()
 		if err == nil {
